@@ -454,6 +454,7 @@ constexpr auto pos_zero(T v) -> bool { return v == 0 && !neg_zero(v); }
 //   cmath.fmod.ct_quotient_overflow  fmod is x - trunc(x/y)*y: not a constant expression when x/y (or the product) overflows
 //   cmath.trunc.ct_negzero     trunc(x), -1 < x < 0, is +0.0 in a constant expression and -0.0 at run time
 //   cmath.fma.ct_unfused       fma is x*y+z with two roundings in a constant expression
+//   cmath.round.ld_rounds_to_2p63  round(long double) for 2^63 - .5 <= |x| < 2^63 is not a constant expression
     #define C13_HUGE(v) ((is_fin(v) && !fits_ll(v)) ? "cmath.round.ct_huge" : (v != 0 && mag(v) < std::numeric_limits<decltype(v)>::epsilon()) ? "cmath.round.ct_tiny" : kNoTag)
 template <typename T>
 constexpr auto neg_nan(T v) -> bool
@@ -560,20 +561,21 @@ C13_CMATH(f32, float)
 // Arguments: (hi, lo) pairs of doubles, value hi + lo exactly (every double; n + .5 and n +- 1 beyond 2^53; not the
 // extended exponent range).  rint/lrint/llrint/signbit have a builtin run-time path, the other overloads one path.
 using ldbl = long double;
-constexpr auto ld_fits_ll(ldbl v) -> bool { return v == v && v >= -9223372036854775808.0L && v < 9223372036854775808.0L; }
+constexpr auto ld_fits_ll(ldbl v) -> bool { return v == v && v >= -9223372036854775808.0L && v <= 9223372036854775807.0L; } // the rounded value fits
 constexpr auto ld_integral(ldbl v) -> bool { return ld_fits_ll(v) && static_cast<ldbl>(static_cast<long long>(v)) == v; }
 constexpr auto ld_fin(ldbl v) -> bool { return v == v && v <= LDBL_MAX && v >= -LDBL_MAX; }
 constexpr auto ld_huge(ldbl v) -> char const* { return (ld_fin(v) && !(v > -9223372036854775808.0L && v < 9223372036854775808.0L)) ? "cmath.round.ct_huge" : (v != 0 && (v < 0 ? -v : v) < LDBL_EPSILON) ? "cmath.round.ct_tiny" : kNoTag; }
-constexpr auto ld_negzero(ldbl v) -> bool { return v == 0 && __builtin_signbit(v); }
+constexpr auto ld_negzero(ldbl v) -> bool { return v == 0 && __builtin_signbit(v) != 0; }
     #define C13_LD1(F, DOM, EXCL) C13_FN2(F##_ld, #F ".ld", "cmath", LD, LDlo, DOM, EXCL, etl::F(ld(x, y)))
 C13_LD1(floor, true, ld_huge(ld(x, y)))
 C13_LD1(ceil, true, ((ld_huge(ld(x, y)) != kNoTag && ld(x, y) != 0 && !((ld(x, y) < 0 ? -ld(x, y) : ld(x, y)) < LDBL_EPSILON)) ? "cmath.round.ct_huge" : kNoTag))
 C13_LD1(trunc, true, (ld_huge(ld(x, y)) != kNoTag ? ld_huge(ld(x, y)) : (ld(x, y) < 0 && ld(x, y) > -1) ? "cmath.trunc.ct_negzero" : kNoTag))
-C13_LD1(round, true, ld_huge(ld(x, y)))
+// gcem::round casts floor(|x|) + 1 to long long: |x| in [2^63 - .5, 2^63) is representable only as a long double
+C13_LD1(round, true, ((ld_fin(ld(x, y)) && (ld(x, y) < 0 ? -ld(x, y) : ld(x, y)) >= 9223372036854775807.5L && (ld(x, y) < 0 ? -ld(x, y) : ld(x, y)) < 9223372036854775808.0L) ? "cmath.round.ld_rounds_to_2p63" : ld_huge(ld(x, y))))
 C13_LD1(rint, true, ((!ld_integral(ld(x, y)) || ld_negzero(ld(x, y))) ? "cmath.rint.ct_truncates" : kNoTag))
 C13_LD1(lrint, ld_fits_ll(ld(x, y)), (!ld_integral(ld(x, y)) ? "cmath.rint.ct_truncates" : kNoTag))
 C13_LD1(llrint, ld_fits_ll(ld(x, y)), (!ld_integral(ld(x, y)) ? "cmath.rint.ct_truncates" : kNoTag))
-C13_LD1(signbit, true, (((x == 0 || x != x) && __builtin_signbit(x) == (x != x)) ? "cmath.signbit.ct_poszero_negnan" : kNoTag))
+C13_LD1(signbit, true, (((x == 0 || x != x) && (__builtin_signbit(x) != 0) == (x != x)) ? "cmath.signbit.ct_poszero_negnan" : kNoTag))
 C13_LD1(fabs, true, kNoTag)
 C13_LD1(abs, true, kNoTag)
 C13_LD1(isnan, true, kNoTag)
@@ -1183,27 +1185,10 @@ C13_SCEN(array_bitset)
 
 } // namespace c13
 
-#if defined(C13_PART_CM64)
-    #include "C13_gen_cm64.hpp"
-#elif defined(C13_PART_CM32)
-    #include "C13_gen_cm32.hpp"
-#elif defined(C13_PART_CMLD)
-    #include "C13_gen_cmld.hpp"
-#elif defined(C13_PART_INT8)
-    #include "C13_gen_int8.hpp"
-#elif defined(C13_PART_NUM8)
-    #include "C13_gen_num8.hpp"
-#elif defined(C13_PART_W1632)
-    #include "C13_gen_w1632.hpp"
-#elif defined(C13_PART_W64)
-    #include "C13_gen_w64.hpp"
-#elif defined(C13_PART_CSTR)
-    #include "C13_gen_cstr.hpp"
-#elif defined(C13_PART_SCEN)
-    #include "C13_gen_scen.hpp"
-#else
-    #error "compile with -DC13_PART_<CM64|CM32|CMLD|INT8|NUM8|W1632|W64|CSTR|SCEN>"
+#if !defined(C13_HAVE_PART) || !defined(C13_GEN_HEADER)
+    #error "compile with -DC13_PART_<CM64|CM32|CMLD|INT8|NUM8|W1632|W64|CSTR|SCEN> (one or more) and -DC13_GEN_HEADER=\"C13_gen_<part>.hpp\""
 #endif
+#include C13_GEN_HEADER
 
 namespace c13 {
 
